@@ -19,7 +19,7 @@ cp $dst/demo_test.go ./zz_mutant_demo_test.go
 echo "-- demo on clean tree (must pass)"
 go test -vet=off -count=1 -run TestMutantDemo . 2>&1 | tail -3; clean=${PIPESTATUS[0]}
 echo "-- apply patch"
-if git apply --3way $dst/patch.diff 2>&1 || git apply $dst/patch.diff; then applied=0; else applied=1; fi
+if git apply $dst/patch.diff; then applied=0; else applied=1; fi
 echo "applied=$applied"
 echo "-- demo with change (must fail)"
 go test -vet=off -count=1 -run TestMutantDemo . 2>&1 | tail -6; with=${PIPESTATUS[0]}
